@@ -37,6 +37,13 @@ CLAIMED["C06"] = ("Theorems C06_* (coq/Properties/C06.v): for every well-formed 
                   "[min_rows, max_rows]; hence max_rows=0 and is_join_identity agree with the content. Slice bound formulas "
                   "are regenerated from source; the remaining bound formulas are compared with the library on every run.",
                   "DESIGN.md §4 C06")
+CLAIMED["C04"] = ("Theorem C04_commute_sound (coq/Properties/C04.v): for all 36 ordered pairs of the six unary operation types, all "
+                  "parameters, all targets and all row lists, a reported move is well-formed and preserves the rows in order "
+                  "(partial moves included); a refused move hands back the existing operation. PartialJoin pairs are not "
+                  "covered by the theorem yet: they are decided by the exhaustive small-scope sweep of the real commute() "
+                  "(all pairs x parameter shapes x targets of <=2/3 rows), which also compares the model's commute with the "
+                  "real one. Known finding F2 (Projection past Deduplication, pinned by the suite) is excluded from the theorem "
+                  "with a refutation witness and reported as KNOWN-FINDING.", "DESIGN.md §4 C04")
 NOT_APPLICABLE = {}
 
 
